@@ -281,7 +281,7 @@ fn bx_ring() {
                         prefix.push(Op::Acquire(fill));
                         prefix.push(Op::Commit(fill, vec![(0, 900), (fill - 1, 901)]));
                     }
-                    res = dfs(pages, &mut prefix, depth.saturating_sub(2).max(1), &mut count);
+                    res = dfs(pages, &mut prefix, 2, &mut count);   // the branching factor grows with the capacity: two steps from each of the 60 start states
                     if res.is_err() {
                         break 'np2;
                     }
